@@ -1076,6 +1076,8 @@ def check_write_image(ctx, tu, f):
         ctx.violation(R, inst, 'the stores run over %s x %s x %s; required sizeY x sizeX x N_COMP'
                       % (show(nest['ycount']), show(nest['xcount']), show(nest['ccount'])), tu.loc(n), key=keyb + 'loop-range')
         good = False
+    if len(fwrites) > 1 and len([fw_ for fw_ in fwrites if fw_[2] is not None]) >= 1:
+        fwrites = [fw_ for fw_ in fwrites if fw_[2] is not None]      # a write of text (the header) is not a pixel row
     if len(fwrites) != 1:
         ctx.undecided(R, inst, 'expected one fwrite, found %d' % len(fwrites), tu.fn_loc(f))
         return
@@ -1136,6 +1138,49 @@ def c_string(value):
         return None
 
 
+def header_template(tu, f):
+    """How writeImage produces the header text: a list of ('param', decl id) [a string parameter inserted as is / used as
+    the printf format], ('int', decl id) [an int parameter printed in decimal], ('lit', text); plus the way it is formatted
+    ('printf' | 'ostream') and the local stream variable for the ostream form.  None if not recognised."""
+    g = tu.cfg(f)
+    strp = {p['id'] for p in f['params'] if p['ct'].replace('const', '').replace(' ', '') == 'char*'}
+    intp = {p['id'] for p in f['params'] if p['ct'].replace('const ', '') == 'int'}
+    for b, i, n in g.stmts():
+        if n.get('kind') == 'CallExpr' and tu.sd(n).get('q') in ('fprintf', 'std::fprintf', 'snprintf', 'std::snprintf'):
+            a = tu.call_parts(n)[2]
+            k0 = 1 if 'snprintf' not in tu.sd(n).get('q') else 2
+            if len(a) > k0 and tu.ref_decl(a[k0]) in strp:
+                return {'kind': 'printf', 'items': [('param', tu.ref_decl(a[k0]))], 'ints': [tu.ref_decl(x) for x in a[k0 + 1:]], 'node': n}
+    # std::ostringstream S; S << ...; ... S.str()
+    svars = [x for x in tu.walk(tu.body(f)) if x.get('kind') == 'VarDecl' and
+             re.search(r'ostringstream|stringstream', x.get('type', {}).get('qualType', ''))]
+    probe = JsonFlow(tu, None, None, None)
+    for sv in svars:
+        items, ints, nodes = [], [], []
+        ok = True
+        for b, i, n in g.stmts():
+            if n.get('kind') in ('CXXOperatorCallExpr', 'CXXMemberCallExpr') and tu.sd(n).get('q', '').split('::')[-1] == 'operator<<' \
+                    and probe.stream_root(n) == sv['id']:
+                o = tu.strip(probe.operand(n), casts=True)
+                nodes.append(n)
+                if o is None:
+                    ok = False
+                elif o.get('kind') == 'StringLiteral' and c_string(o.get('value')) is not None:
+                    items.append(('lit', c_string(o.get('value'))))
+                elif o.get('kind') == 'CharacterLiteral':
+                    items.append(('lit', chr(o.get('value', 63))))
+                elif o.get('kind') == 'DeclRefExpr' and o.get('referencedDecl', {}).get('id') in strp:
+                    items.append(('param', o['referencedDecl']['id']))
+                elif o.get('kind') == 'DeclRefExpr' and o.get('referencedDecl', {}).get('id') in intp:
+                    items.append(('int', o['referencedDecl']['id']))
+                    ints.append(o['referencedDecl']['id'])
+                else:
+                    ok = False
+        if items and ok:
+            return {'kind': 'ostream', 'items': items, 'ints': ints, 'node': nodes[0], 'stream': sv, 'nodes': nodes}
+    return None
+
+
 def check_wrappers(ctx, tu):
     R = 'R-C20-2'
     n = 0
@@ -1193,26 +1238,57 @@ def check_wrappers(ctx, tu):
             callee['targs'][4] == 'true'
         args = tu.call_parts(call)[2]
         good = True
-        # arguments handed through: (fileName, header, sizeX, sizeY, pixel) = (param0, literal, param1, param2, param3)
-        pids = [p['id'] for p in f['params']]
-        want = [pids[0], None, pids[1], pids[2], pids[3]] if len(pids) == 4 and len(args) == 5 else None
-        if want is None:
+        # arguments handed through by role: file name, the two sizes in order, the pixel pointer; text parameters are literals
+
+        def role(ct):
+            c_ = ct.replace('const ', '').replace('const', '').strip()
+            if 'basic_string' in c_ or 'std::string' in c_:
+                return 'file'
+            if c_ == 'int':
+                return 'int'
+            if c_.replace(' ', '') == 'char*':
+                return 'text'
+            return 'pixel' if c_.endswith('*') else 'other'
+
+        wroles, croles = {}, {}
+        for p_ in f['params']:
+            wroles.setdefault(role(p_['ct']), []).append(p_)
+        for i_, p_ in enumerate(callee['params']):
+            croles.setdefault(role(p_['ct']), []).append((i_, p_))
+        if len(args) != len(callee['params']) or any(len(wroles.get(r_, [])) != len(croles.get(r_, [])) for r_ in ('file', 'int', 'pixel')) \
+                or len(wroles.get('int', [])) != 2:
             ctx.undecided(R, inst, 'unexpected parameter / argument count', tu.loc(call))
             continue
-        for i, (a, w) in enumerate(zip(args, want)):
-            ra = resolve(a, cenv)
-            if w is not None and (ra is None or ra.get('kind') != 'DeclRefExpr' or ra.get('referencedDecl', {}).get('id') != w):
-                ctx.violation(R, inst, 'argument %d of writeImage is `%s`; required the wrapper\'s `%s`'
-                              % (i + 1, tu.show(a), f['params'][[0, 0, 1, 2, 3][i]]['name']), tu.loc(call), key=keyb + 'argument-%d' % (i + 1))
-                good = False
-        hl = resolve(args[1], cenv)
-        if hl is not None and hl.get('kind') in ('CallExpr', 'CXXMemberCallExpr') and not tu.call_parts(hl)[2]:
-            # a traits function returning the header literal
-            hf = tu.callee_fn(hl)
-            rets = [r for r in tu.walk(tu.body(hf)) if r.get('kind') == 'ReturnStmt'] if hf is not None and tu.body(hf) is not None else []
-            if len(rets) == 1 and tu.kids(rets[0]):
-                hl = tu.strip(tu.kids(rets[0])[0], casts=True)
-        hdr = c_string(hl.get('value')) if hl is not None and hl.get('kind') == 'StringLiteral' else None
+        for r_ in ('file', 'int', 'pixel'):
+            for wp_, (ci_, cp_) in zip(wroles[r_], croles[r_]):
+                ra = resolve(args[ci_], cenv)
+                if ra is None or ra.get('kind') != 'DeclRefExpr' or ra.get('referencedDecl', {}).get('id') != wp_['id']:
+                    ctx.violation(R, inst, 'argument %d of writeImage is `%s`; required the wrapper\'s `%s`'
+                                  % (ci_ + 1, tu.show(args[ci_]), wp_['name']), tu.loc(call), key=keyb + 'argument-%d' % (ci_ + 1))
+                    good = False
+        tmpl = header_template(tu, callee)
+        if tmpl is None:
+            ctx.undecided(R, inst, 'how the called writeImage instantiation produces its header is not recognised', tu.fn_loc(callee))
+            continue
+        pieces = []
+        for kind_, v_ in tmpl['items']:
+            if kind_ == 'lit':
+                pieces.append(v_)
+            elif kind_ == 'int':
+                pieces.append('%i')
+            else:
+                ci_ = [i_ for i_, p_ in enumerate(callee['params']) if p_['id'] == v_]
+                hl_ = resolve(args[ci_[0]], cenv) if ci_ else None
+                if hl_ is not None and hl_.get('kind') in ('CallExpr', 'CXXMemberCallExpr') and not tu.call_parts(hl_)[2]:
+                    hf = tu.callee_fn(hl_)
+                    rets = [r for r in tu.walk(tu.body(hf)) if r.get('kind') == 'ReturnStmt'] if hf is not None and tu.body(hf) is not None else []
+                    if len(rets) == 1 and tu.kids(rets[0]):
+                        hl_ = tu.strip(tu.kids(rets[0])[0], casts=True)
+                pieces.append(c_string(hl_.get('value')) if hl_ is not None and hl_.get('kind') == 'StringLiteral' else None)
+        hdr = ''.join(pieces) if all(p_ is not None for p_ in pieces) else None
+        hl = None
+        if False:
+            pass
         if hdr is None:
             ctx.undecided(R, inst, 'header is not a string literal', tu.loc(call))
             continue
@@ -1275,6 +1351,44 @@ def check_header_use(ctx, tu, f, headers=None):
     hc = [(b, i, n) for b, i, n in calls if len(tu.call_parts(n)[2]) >= 2 and hdrp and tu.ref_decl(tu.call_parts(n)[2][1]) == hdrp[0]]
     sn = [(b, i, n) for b, i, n in g.stmts() if n.get('kind') == 'CallExpr' and tu.sd(n).get('q') in ('snprintf', 'std::snprintf')
           and len(tu.call_parts(n)[2]) >= 3 and hdrp and tu.ref_decl(tu.call_parts(n)[2][2]) == hdrp[0]]
+    tmpl = header_template(tu, f)
+    if not hc and not sn and tmpl is not None and tmpl['kind'] == 'ostream' and len(ints) == 2:
+        sv = tmpl['stream']
+        first = tmpl['node']
+        if tmpl['ints'] != ints:
+            ctx.violation(R, inst, 'the header prints the int parameters in the order `%s`; required width (sizeX) then height (sizeY)'
+                          % ', '.join(str(tu.node(i_).get('name') if tu.node(i_) else i_) for i_ in tmpl['ints']), tu.loc(first),
+                          key=keyb + 'header-arguments')
+            return
+        # numbers put into a std::ostream are formatted with the stream's locale: the global locale unless the stream is
+        # imbued with the classic one - digit grouping (1,024) would corrupt the size line
+        imbued = [(bb, ii, nn) for bb, ii, nn in g.stmts() if nn.get('kind') == 'CXXMemberCallExpr' and
+                  tu.sd(nn).get('q', '').split('::')[-1] == 'imbue' and tu.call_parts(nn)[1] is not None and
+                  tu.ref_decl(tu.call_parts(nn)[1]) == sv['id'] and
+                  any(y.get('kind') == 'CallExpr' and tu.sd(y).get('q') == 'std::locale::classic' for y in tu.walk(nn))]
+        w1 = g.where(first['id'])
+        if not imbued or w1 is None or not all(g.dominates((bb.id, ii), w1) for bb, ii, nn in imbued[:1]):
+            ctx.violation(R, inst, 'the header is assembled in the std::ostringstream `%s`, into which sizeX / sizeY are inserted as '
+                          'numbers: a string stream formats numbers with the global C++ locale, so an application locale with digit '
+                          'grouping writes e.g. `1,024 768`; the stream is not imbued with std::locale::classic() first'
+                          % sv.get('name'), tu.loc(first), key=keyb + 'header-locale')
+            return
+        outs_ = [(bb, ii, nn) for bb, ii, nn in g.stmts() if nn.get('kind') == 'CallExpr' and
+                 tu.sd(nn).get('q') in ('fputs', 'std::fputs', 'fwrite', 'std::fwrite', 'fprintf', 'std::fprintf') and
+                 any(y.get('kind') == 'CXXMemberCallExpr' and tu.sd(y).get('q', '').split('::')[-1] in ('data', 'c_str', 'str')
+                     and 'basic_string' in tu.sd(y).get('q', '') or
+                     (y.get('kind') == 'CXXMemberCallExpr' and tu.sd(y).get('q', '').split('::')[-1] == 'str')
+                     for a_ in tu.call_parts(nn)[2][:1] for y in tu.walk(a_))]
+        fw = [(bb, ii) for bb, ii, nn in g.stmts() if nn.get('kind') == 'CallExpr' and tu.sd(nn).get('q') in ('fwrite', 'std::fwrite')
+              and not any(nn['id'] == o_[2]['id'] for o_ in outs_)]
+        if len(outs_) != 1:
+            ctx.undecided(R, inst, 'the text of the header stream is not written to the file exactly once', tu.loc(first))
+            return
+        if not fw or not all(g.dominates((outs_[0][0].id, outs_[0][1]), (bb.id, ii)) for bb, ii in fw):
+            ctx.violation(R, inst, 'the header is not written before the pixel rows on every path', tu.loc(first), key=keyb + 'header-order')
+            return
+        ctx.ok(R, inst, 'header assembled in a string stream imbued with the classic locale and written before every row', tu.loc(first))
+        return
     if len(hc) + len(sn) != 1 or len(ints) != 2:
         ctx.undecided(R, inst, 'expected one fprintf / snprintf of the header parameter', tu.fn_loc(f))
         return
@@ -1554,6 +1668,9 @@ def json_user(st):
 def json_unput(st):
     """seekp(-1): the last character will be overwritten; (state, error)"""
     L, lc, top, stack, instr, esc, flags = st
+    if L == 0:
+        return BAD, "the last character is to be removed, but nothing of the output is still in memory (everything written so far " \
+                    "was already handed to the file)"
     if lc == ',' and not instr:
         if not stack and top == 'C':
             return (2, '?', 'E', stack, instr, esc, flags), None
@@ -1575,6 +1692,7 @@ class JsonFlow:
         self.memo = {}
         self.alias = set()       # ids of reference members (of writer helper objects) bound to the log stream
         self.strvals = {}        # std::string variables / parameters whose text was assembled in a string stream: decl id -> tokens
+        self.staged_vars = set() # std::string variables holding a copy of the text still in the (string) stream
         self.ops = set()
 
     # ---- classification
@@ -1777,8 +1895,37 @@ class JsonFlow:
         if st == BAD:
             return [st]
         k = n.get('kind')
+        if k in ('CXXMemberCallExpr', 'CXXOperatorCallExpr') and tu.call_parts(n)[1] is not None and \
+                tu.ref_decl(tu.call_parts(n)[1]) in self.staged_vars:
+            # operations on a std::string copy of the text that is still in memory act on the end of the output
+            sd_, obj_, args_ = tu.call_parts(n)
+            nm_ = sd_.get('q', '').split('::')[-1]
+            if nm_ == 'pop_back':
+                s2, err = json_unput(st)
+                if err:
+                    self.report(f, 'overwrites-non-comma', err.replace('seekp(-1)', 'pop_back()'), n, at, pred)
+                return [s2]
+            if nm_ in ('operator+=', 'append', 'push_back') and len(args_) == 1:
+                c_ = self.classify(args_[0], st)
+                if c_ is not None and c_[0] == 'lit':
+                    s2, err = json_text(st, c_[1])
+                    if err:
+                        self.report(f, 'skeleton', 'appending %r here: %s' % (c_[1], err), n, at, pred)
+                    return [s2]
+                self.undec.setdefault('text appended with `%s`' % tu.show(n), n)
+                return [BAD]
+            if nm_ in ('erase', 'resize', 'clear', 'insert', 'replace', 'assign', 'operator='):
+                self.undec.setdefault('modification `%s` of the pending text' % tu.show(n), n)
+                return [BAD]
+            return [st]
         if k == 'DeclStmt':
             for vd in n.get('inner', ()):
+                if isinstance(vd, dict) and vd.get('kind') == 'VarDecl' and tu.kids(vd) and \
+                        re.search(r'basic_string<char|std::string', vd.get('type', {}).get('qualType', '')) and \
+                        any(y.get('kind') == 'CXXMemberCallExpr' and tu.sd(y).get('q', '').split('::')[-1] == 'str' and
+                            not tu.call_parts(y)[2] and tu.call_parts(y)[1] is not None and
+                            self.is_log(self.decl_of(tu.call_parts(y)[1]), stream_id) for y in tu.walk(tu.kids(vd)[0])):
+                    self.staged_vars.add(vd['id'])
                 if isinstance(vd, dict) and vd.get('kind') == 'VarDecl' and tu.kids(vd) and \
                         re.search(r'basic_string<char|std::string', vd.get('type', {}).get('qualType', '')):
                     for y in tu.walk(tu.kids(vd)[0]):
@@ -1974,6 +2121,10 @@ class JsonFlow:
         if k == 'CXXMemberCallExpr':
             sd, obj, args = tu.call_parts(n)
             nm = sd.get('q', '').split('::')[-1]
+            if obj is not None and tu.ref_decl(obj) == stream_id and nm == 'str' and len(args) == 1:
+                # the staging stream is emptied: what it held has been handed on and can no longer be edited
+                L_, lc_, top_, stack_, instr_, esc_, flags_ = st
+                return [(0, lc_, top_, stack_, instr_, esc_, flags_)]
             if obj is not None and tu.ref_decl(obj) == stream_id:
                 if nm == 'seekp':
                     off = tu.sd(tu.strip(args[0])).get('cv') if args else None
@@ -2033,6 +2184,33 @@ class JsonFlow:
                 return ev.ev(obj)
             return None
 
+        # ---- tests on a std::string copy of the text still in memory: empty(), back() == ch
+        negp, cp = False, c
+        while cp is not None and cp.get('kind') == 'UnaryOperator' and cp.get('opcode') == '!':
+            negp = not negp
+            cp = tu.strip(tu.kids(cp)[0])
+        if cp is not None and cp.get('kind') == 'CXXMemberCallExpr' and tu.call_parts(cp)[1] is not None and \
+                tu.ref_decl(tu.call_parts(cp)[1]) in self.staged_vars and tu.sd(cp).get('q', '').split('::')[-1] == 'empty':
+            is_empty = st[0] == 0
+            return [st] if (is_empty != negp) == (si == 0) else []
+        if cp is not None and cp.get('kind') in ('BinaryOperator', 'CXXOperatorCallExpr') and \
+                (cp.get('opcode') in ('==', '!=') or tu.sd(cp).get('q', '').split('::')[-1] in ('operator==', 'operator!=')):
+            ks_ = tu.kids(cp) if cp.get('kind') == 'BinaryOperator' else tu.kids(cp)[1:]
+            eq_ = (cp.get('opcode') == '==') if cp.get('kind') == 'BinaryOperator' else tu.sd(cp).get('q', '').endswith('==')
+            if len(ks_) == 2:
+                for a_, b_ in ((ks_[0], ks_[1]), (ks_[1], ks_[0])):
+                    a0_, b0_ = tu.strip(a_, casts=True), tu.strip(b_, casts=True)
+                    if a0_ is not None and a0_.get('kind') == 'CXXMemberCallExpr' and tu.call_parts(a0_)[1] is not None and \
+                            tu.ref_decl(tu.call_parts(a0_)[1]) in self.staged_vars and \
+                            tu.sd(a0_).get('q', '').split('::')[-1] == 'back' and b0_ is not None and b0_.get('kind') == 'CharacterLiteral':
+                        ch_ = chr(b0_.get('value', 0))
+                        lc_ = st[1]
+                        if lc_ in ('?', ''):
+                            return [st]
+                        same = (lc_ == ch_) if ch_ in ',[' else (lc_ == 'o' and None)
+                        if same is None:
+                            return [st]
+                        return [st] if ((same == eq_) != negp) == (si == 0) else []
         # ---- emptiness of a container and the first test of a range-for over the same container
         neg = False
         c2 = c
@@ -2133,9 +2311,20 @@ def check_savelog(ctx, tu):
         if n.get('kind') == 'VarDecl' and re.search(r'\b(std::)?(basic_)?ofstream\b|basic_ostream|ostringstream|stringstream',
                                                      n.get('type', {}).get('qualType', '')):
             streams.append(n)
-    files = [x for x in streams if re.search(r'ofstream', x.get('type', {}).get('qualType', ''))]
-    if len(streams) != 1 and len(files) == 1:
-        streams = files
+    if len(streams) > 1:
+        # several streams (a file plus an in-memory staging stream, scratch string streams): the log is assembled in the
+        # one that receives the insertions
+        probe = JsonFlow(tu, ctx, R, keyb)
+        counts = {x['id']: 0 for x in streams}
+        for y in tu.walk(tu.body(f)):
+            if y.get('kind') in ('CXXOperatorCallExpr', 'CXXMemberCallExpr') and tu.sd(y).get('q', '').split('::')[-1] == 'operator<<':
+                r_ = probe.stream_root(y)
+                if r_ in counts:
+                    counts[r_] += 1
+        best = max(counts.values())
+        top_ = [x for x in streams if counts[x['id']] == best]
+        files = [x for x in top_ if re.search(r'ofstream', x.get('type', {}).get('qualType', ''))]
+        streams = files[:1] if files else top_[:1] if len(top_) == 1 else streams
     if len(streams) != 1:
         ctx.undecided(R, inst, 'expected one local output stream, found %d' % len(streams), tu.fn_loc(f))
         return
@@ -2398,6 +2587,13 @@ def check_recording(ctx, tu):
             if pi >= len(f['params']) or src != f['params'][pi]['id']:
                 ctx.violation(R, inst, 'field `%s` of the recorded event is not taken from parameter `%s`'
                               % (fld, f['params'][pi]['name'] if pi < len(f['params']) else pi), tu.loc(x), key=keyb + 'field-' + fld)
+                good = False
+            elif f['params'][pi]['ct'].replace('const ', '').rstrip().endswith('*') and isinstance(ai, int) and hops == 0:
+                # the event outlives the call: a string parameter must be stored through the thread's string cache
+                ctx.violation(R, inst, 'the event stores the caller\'s pointer `%s` for its field `%s` without passing it through '
+                              'getCachedString: the recorded event keeps pointing to the caller\'s buffer, which may be released or '
+                              'reused before saveLog prints it' % (f['params'][pi]['name'], fld), tu.loc(x),
+                              key=keyb + 'uncached-string-' + fld)
                 good = False
         if good:
             ctx.ok(R, inst, 'one TraceEvent(%s, ...) appended to events.back() on every path%s'
